@@ -37,6 +37,15 @@ def jobbody(j):
 
 
 def render(v):
+    """One (shape, schedule) -> engine vector; with ctx == "func" the same script runs inside a function body
+    (jobs started there sit on top of the caller's mutable scope instead of the read-only base environment)."""
+    r = render_top(v)
+    if v.get("ctx") == "func" and r["kind"] == "script":
+        r = dict(r, src=SETUP + "main_() {\n" + r["src"][len(SETUP):] + "}\nmain_\n")
+    return r
+
+
+def render_top(v):
     """One (shape, schedule) -> engine vector.  Only concatenation of the texts the spec carries."""
     slots = {}
     for k, ev in enumerate(v["hist"]):
@@ -152,7 +161,8 @@ def shape_key(v):
 
 
 def shape_txt(v):
-    return "jobs=%s main=%r %s" % (["%s{%s}" % (j["kind"], j["op"]) for j in v["jobs"]], v["mop"], v["mpos"])
+    return "jobs=%s main=%r %s%s" % (["%s{%s}" % (j["kind"], j["op"]) for j in v["jobs"]], v["mop"], v["mpos"],
+                                     " inside a function" if v.get("ctx") == "func" else "")
 
 
 def judge(ck, v, r, stats):
@@ -243,7 +253,11 @@ def run(ck):
                 seen.add(k)
                 vecs.append(v)
         ck.notes["share2_simulated"] = len(seen)
+    # the one-job sharing shapes whose main operation runs during the job are run a second time inside a function
+    infunc = [dict(v, ctx="func") for v in vecs if v["family"] == "share" and v["jobs"][0]["kind"] != "api" and v["mpos"] == "during"]
+    vecs = vecs + infunc
     ck.notes["vectors"] = len(vecs)
+    ck.notes["vectors_inside_a_function"] = len(infunc)
     res = run_race(h, [render(v) for v in vecs])
     stats = {"raced": 0, "nontrivial": set()}
     for v, r in zip(vecs, res):
